@@ -786,6 +786,10 @@ func (db *DB) readWALPageOffsets(f *os.File) (_ map[uint32]int64, lastCommit uin
 	r := NewWALReader(f)
 	if err := r.ReadHeader(); err == io.EOF {
 		return nil, 0, nil
+	} else if err != nil {
+		// SQLite does not use any frame of a WAL whose header is invalid either.
+		log.Printf("ignoring wal with invalid header on %q: %s", db.name, err)
+		return nil, 0, nil
 	}
 
 	// Read the offset of the last version of each page in the WAL.
